@@ -170,11 +170,13 @@ Full statement (DESIGN §6 `scroll_speed_spec`), kept visible:
         speedOkB hasSv bpms svs omin omax ref out = true
 
 i.e. the offsets of the result are exactly the breakpoints and every value at or after the first tempo point is
-`active bpm / ref · active multiplier`.  Proved below: the reference part (`scroll_speed_ref_partial`), the
-row formula, and the step-function mechanism (`ffill_last_valid`, for every frame).  NOT proved: that the
-sorted / grouped / merged / filled columns of the pipeline are the active tempo point and the active SV of
-`Spec.allowedSpeeds` (needs stability of the sort, `groupLast`, `mergeOuter`, `bfill`, `dropDup`); that part
-rests on the executable check of `speedOkB` on the model's and the implementation's output. -/
+`active bpm / ref · active multiplier`.  Proved below: the reference part (`scroll_speed_ref_partial`), the row
+formula, the step-function mechanism (`ffill_last_valid`, for every frame), the whole tempo side
+(`ffill_active`, `sorted_bpmRows_ok`, `bpm_frame_spec`) and from it the statement for games without SVs up to
+the set of offsets (`scroll_speed_nosv_spec_partial`).  NOT proved: (a) that the result's offsets are exactly
+the breakpoints, (b) the SV side (`groupLast`, `mergeOuter`, the fills of the merged frame = the SV in force of
+`Spec.activeMults`); (a) and (b) rest on the executable check of `speedOkB` on the model's and the
+implementation's output. -/
 
 /-- the reference of `scroll_speed` is the override when one is given, else a dominant bpm; the result is the
 filled frame mapped row by row through `speedOf ref` -/
